@@ -212,16 +212,19 @@ const (
 
 var cacheDocs = []string{
 	`<mjml><mj-body><mj-section><mj-column><mj-text>Doc A</mj-text></mj-column></mj-section></mj-body></mjml>`,
-	`<mjml><mj-body><mj-section><mj-column><mj-text>Doc B</mj-text></mj-column></mj-section></mj-body></mjml>`, // differs from A in one byte
-	`<mjml><mj-body><mj-section><mj-column><mj-text>unclosed</mj-column></mj-section></mj-body></mjml>`,      // unparsable
+	`<mjml><mj-body><mj-section><mj-column><mj-text>Doc B</mj-text></mj-column></mj-section></mj-body></mjml>`,                // differs from A in one byte
+	`<mjml><mj-body><mj-section><mj-column><mj-text>unclosed</mj-column></mj-section></mj-body></mjml>`,                       // unparsable
 	`<mjml><mj-body><mj-section><mj-column><mj-text bogus-attr="1">Doc V</mj-text></mj-column></mj-section></mj-body></mjml>`, // validation error, HTML still returned
 	// the same document as the previous one behind two blank lines: same HTML, but the validation error names another line
 	"\n\n" + `<mjml><mj-body><mj-section><mj-column><mj-text bogus-attr="1">Doc V</mj-text></mj-column></mj-section></mj-body></mjml>`,
 	// document A followed by trailing whitespace: differs from A only after the root element
 	`<mjml><mj-body><mj-section><mj-column><mj-text>Doc A</mj-text></mj-column></mj-section></mj-body></mjml>` + "\n  ",
+	// a document whose head the renderer READS while rendering (mj-class with the name not written last, mj-attributes
+	// defaults, an inline style rule): a cached tree that a render has modified shows up as a different second result
+	`<mjml><mj-head><mj-attributes><mj-class color="#ff0000" name="red" font-size="20px"/><mj-text padding="1px" bogus-default="x"/><mj-all font-family="Arial"/></mj-attributes><mj-style inline="inline">.k { color: blue; }</mj-style></mj-head><mj-body><mj-section><mj-column><mj-text mj-class="red" css-class="k">Doc C</mj-text><mj-text color="#00ff00" align="center" bogus="1">Doc C2</mj-text></mj-column></mj-section></mj-body></mjml>`,
 }
 
-const cacheOkBits = "110111"
+const cacheOkBits = "1101111"
 
 type predicted struct {
 	out                     string
@@ -257,7 +260,7 @@ func (h cacheHist) all() []string { return append(append([]string{}, h.prefix...
 // compareCache runs one history on the model and on the implementation.
 func compareCache(drv *DriverPool, h cacheHist, res *Result, prop string, checkC14 bool) {
 	ops := h.all()
-	hs := "0,1,2,3,4,5"
+	hs := "0,1,2,3,4,5,6"
 	if h.hashes != nil {
 		var p []string
 		for _, x := range h.hashes {
@@ -299,7 +302,7 @@ func compareCache(drv *DriverPool, h cacheHist, res *Result, prop string, checkC
 	res.Programs++
 	res.DisagreementsChecked += len(ops)
 	res.mu.Unlock()
-	in := map[string]interface{}{"ops": ops, "hashes": h.hashes, "docs": "cacheDocs (A, B, unparsable, invalid-attribute, same behind two blank lines, A + trailing whitespace)"}
+	in := map[string]interface{}{"ops": ops, "hashes": h.hashes, "docs": "cacheDocs (A, B, unparsable, invalid-attribute, same behind two blank lines, A + trailing whitespace, head-reading document)"}
 	if crash != "" || len(obs) != len(ops) {
 		// a crash is an implementation failure: no configuration or history may take the process down (C14/C13)
 		res.Violate(Violation{Sig: "process-crash|" + canonHist(h), Kind: "history", What: "cache history crashed or hung the process: " + crash, Input: in})
@@ -396,7 +399,7 @@ func canonHist(h cacheHist) string {
 func cacheHistories(tier string, seed int64, withConfigs bool) []cacheHist {
 	var hs []cacheHist
 	half, full := fmt.Sprintf("a%d", 150*int64(1e9)), fmt.Sprintf("a%d", 300*int64(1e9))
-	alpha := []string{"rc0", "rc1", "rc2", "rc3", "rc4", "rc5", "ru0", half, full, "s"}
+	alpha := []string{"rc0", "rc1", "rc2", "rc3", "rc4", "rc5", "ru0", half, full, "s"} // rc6 (the head-reading document) joins the random and targeted histories only
 	maxLen := 4
 	if tier == "thorough" {
 		maxLen = 5
@@ -460,7 +463,7 @@ func cacheHistories(tier string, seed int64, withConfigs bool) []cacheHist {
 			if fast {
 				o = r.Pick(append(falpha, "rc0", "rc1", "rc3"))
 			} else {
-				o = r.Pick(append(alpha, "rc0", "rc1", "rc0"))
+				o = r.Pick(append(alpha, "rc0", "rc1", "rc0", "rc6", "rc6", "ru6"))
 			}
 			h.ops = append(h.ops, o)
 			if fast && o != "s" {
@@ -506,7 +509,7 @@ func cfgOps(ttl int64) []string {
 
 func runCacheProp(prop string) runFn {
 	return func(res *Result, tier string, seed int64, replay string) {
-		res.Rule = "histories over {cached render of A / A' (one byte differs) / unparsable / invalid-attribute doc / the same behind blank lines / A with trailing whitespace, uncached render, advance TTL/2, advance TTL, stop}: exhaustive to length 4 (quick) or 5 (thorough); fast-sweep family (1 ms interval, tick after every step) exhaustive to length 3; seeded random histories up to length 25 (quick) / 125 (thorough); C14 adds the TTL×interval boundary matrix in both setter orders. Each history runs in a FRESH process (hx cachechild) and on the Lean Model (driver `cache`); per op: outcome vs uncached compilation, parser calls, cache size, cleaner registered, effective config, cleanup goroutines started/exited. Non-trivial = history with at least one cached compilation; distinct by op list"
+		res.Rule = "histories over {cached render of A / A' (one byte differs) / unparsable / invalid-attribute doc / the same behind blank lines / A with trailing whitespace / a document with mj-class, mj-attributes, inline style and an invalid attribute after valid ones, uncached render, advance TTL/2, advance TTL, stop}: exhaustive to length 4 (quick) or 5 (thorough); fast-sweep family (1 ms interval, tick after every step) exhaustive to length 3; seeded random histories up to length 25 (quick) / 125 (thorough); C14 adds the TTL×interval boundary matrix in both setter orders. Each history runs in a FRESH process (hx cachechild) and on the Lean Model (driver `cache`); per op: outcome vs uncached compilation, parser calls, cache size, cleaner registered, effective config, cleanup goroutines started/exited. Non-trivial = history with at least one cached compilation; distinct by op list"
 		drv, err := startDriverPool(8)
 		if err != nil {
 			res.Disagree(Violation{Sig: "driver-missing", Kind: "history", What: err.Error()})
@@ -536,10 +539,14 @@ func runCacheProp(prop string) runFn {
 			hs = []cacheHist{h}
 		} else {
 			hs = cacheHistories(tier, seed, prop == "C14")
+			// the head-reading document: cached again and again, next to uncached compilations of itself and of others
+			for _, ops := range [][]string{{"rc6", "rc6"}, {"rc6", "rc6", "rc6"}, {"ru6", "rc6", "rc6", "ru6"}, {"rc6", "rc0", "rc6", "rc3", "rc6"}, {"rc6", "s", "rc6", "rc6"}} {
+				hs = append(hs, cacheHist{ops: ops})
+			}
 			// forced hash collisions: the recorded finding C13-F1, and near misses that must not collide
 			if prop == "C13" {
-				hs = append(hs, cacheHist{ops: []string{"rc0", "rc1"}, hashes: []uint64{7, 7, 8, 9, 10, 11}})
-				hs = append(hs, cacheHist{ops: []string{"rc0", "rc1", "rc0"}, hashes: []uint64{7, 8, 9, 10, 11, 12}})
+				hs = append(hs, cacheHist{ops: []string{"rc0", "rc1"}, hashes: []uint64{7, 7, 8, 9, 10, 11, 12}})
+				hs = append(hs, cacheHist{ops: []string{"rc0", "rc1", "rc0"}, hashes: []uint64{7, 8, 9, 10, 11, 12, 13}})
 			}
 		}
 		res.Exhaustive = false
